@@ -555,14 +555,14 @@ def mkDB (cfg : Cfg) (dir : String) (r : Replay) (data : List (Nat × FileSt)) :
 
 theorem openDB_scan (s : St) (dir : String) (cfg : Cfg) (d : DirSt) (r : Replay)
     (data' : List (Nat × FileSt))
-    (hdb : s.db = none) (hcfg : cfg.fileSize ≠ 0) (hd : s.world.get dir = some d)
+    (hdb : s.db = none) (hcfg : cfg.Valid) (hd : s.world.get dir = some d)
     (hl : d.locked = false) (hm : s.world.get (mergeDirName dir) = none) (hne : d.data ≠ [])
     (hload : loadIndex Replay.init 0 d.data = some (r, data')) :
     openDB s dir cfg
       = ({ world := s.world.set dir { d with data := data', locked := true },
            db := some (mkDB cfg dir r data') }, .ok) := by
   unfold openDB
-  simp only [hdb, if_neg hcfg, hd, Option.isNone_some, Bool.false_eq_true, if_false, Option.getD_some, hl]
+  simp only [hdb, if_neg hcfg.not_rejected, hd, Option.isNone_some, Bool.false_eq_true, if_false, Option.getD_some, hl]
   have hadopt : adopt s.world dir = (s.world, 0) := by
     unfold adopt; simp only [hm]
   simp only [hadopt, hd, Option.getD_some, Nat.lt_irrefl, if_false, ite_self]
@@ -1020,7 +1020,7 @@ theorem crashImage_decomp : ∀ (data data' : List (Nat × FileSt)) (g : GDir),
     its first `j` complete records, and builds the handle from the replay of the cut log -/
 theorem openDB_crash (s : St) (dir : String) (cfg : Cfg) (d : DirSt)
     (gI : GDir) (id : Nat) (gl : GFile) (dataI : List (Nat × FileSt)) (fl : FileSt) (n : Nat)
-    (hdb : s.db = none) (hcfg : cfg.fileSize > 0)
+    (hdb : s.db = none) (hcfg : cfg.Valid)
     (hd : s.world.get dir = some d) (hl : d.locked = false)
     (hnomerge : s.world.get (mergeDirName dir) = none)
     (hrecs : ∀ x ∈ gI ++ [(id, gl)], ∀ r ∈ x.2, RecOK r)
